@@ -13,8 +13,11 @@ anch=p['anchors']
 code="; ".join(f"{m['name']} ({m['where']})" for m in anch.get('mechanism',[]))
 files=", ".join(anch.get('files',[]))
 used=[]
-for d in sorted(glob.glob(f'/verif/seeded/{pid}-*')):
-    try: used.append(json.load(open(d+'/meta.json'))['summary'].split('. ')[0][:400])
+for d in sorted(glob.glob('/verif/seeded/C*')):
+    try:
+        touched=[l[6:].strip() for l in open(d+'/patch.diff') if l.startswith('+++ b/')]
+        if os.path.basename(d).startswith(pid+'-') or any(t in anch.get('files',[]) for t in touched):
+            used.append(json.load(open(d+'/meta.json'))['summary'].split('. ')[0][:400])
     except Exception: pass
 orch = pid=='C19'
 client = pid=='C20'
